@@ -297,7 +297,9 @@ func calcPositionIfNeededHevc(pkt *RtpPacket) {
 	// +-------------+-----------------+
 
 	outerNaluType := hevc.ParseNaluType(b[0])
-	if _, ok := hevc.NaluTypeMapping[outerNaluType]; ok {
+	// rfc7798 4.4.1: every type below 48 (AP) is a single nal unit packet, including the types
+	// that hevc.NaluTypeMapping does not name (EOS, EOB, filler data, reserved)
+	if outerNaluType < NaluTypeHevcAp {
 		pkt.positionType = PositionTypeSingle
 		return
 	}
